@@ -33,12 +33,13 @@ import (
 
 	"github.com/nspcc-dev/neo-go/pkg/smartcontract/scparser"
 	"github.com/nspcc-dev/neo-go/pkg/util"
+	"github.com/nspcc-dev/neo-go/pkg/util/bitfield"
 
 	"verif/lib/vk"
 )
 
 const (
-	rawBase  = 12345  // picoGAS per price unit in the raw part: prices are not whole datoshi, so rounding matters
+	rawBase  = 10001  // picoGAS per price unit in the raw part: prices are not whole datoshi, so rounding matters, and a one-unit script misses a limit of 1 datoshi by exactly one picoGAS
 	deepBase = 300000 // the network default (30 datoshi per unit) elsewhere
 )
 
@@ -57,13 +58,17 @@ type replayRec struct {
 	OwnPico int64     `json:"executed_prices_picogas"`
 	Err     string    `json:"vm_error,omitempty"`
 	Disasm  string    `json:"disasm,omitempty"`
+	Handler bool      `json:"harness_syscall_handler,omitempty"`
 	Loaded  []loadRec `json:"loadable_scripts,omitempty"` // xscript part: what the harness's SYSCALL handler loads (index = low byte of the syscall id)
 }
 
 type loadRec struct {
-	Script string `json:"script_hex"`
-	Hash   string `json:"hash_le"`
-	Disasm string `json:"disasm"`
+	Script    string `json:"script_hex"`
+	Hash      string `json:"hash_le"`
+	Disasm    string `json:"disasm"`
+	NefScript string `json:"nef_style_script_hex,omitempty"` // what modes 3/4 (LoadNEFMethod) load
+	NefHash   string `json:"nef_style_hash_le,omitempty"`
+	MethodOff int    `json:"nef_style_method_offset,omitempty"`
 }
 
 // local: per-worker counters (kept in the worker's walker, merged under the
@@ -76,10 +81,10 @@ type ocKey struct {
 }
 
 type local struct {
-	execs, steps, correct, cyclic, over, runStepDiff, deepNotStatic, decoderDiff, notes int64
-	maxWalk, maxInvoc, maxTry                                                           int
-	outcomes                                                                            map[ocKey]int64
-	sigs                                                                                map[string]struct{}
+	execs, steps, correct, cyclic, over, runStepDiff, deepNotStatic, decoderDiff, notes, methodOffsets int64
+	maxWalk, maxInvoc, maxTry                                                                          int
+	outcomes                                                                                           map[ocKey]int64
+	sigs                                                                                               map[string]struct{}
 }
 
 type stats struct {
@@ -135,6 +140,7 @@ func (s *stats) merge(w *walker) {
 	t.deepNotStatic += l.deepNotStatic
 	t.decoderDiff += l.decoderDiff
 	t.notes += l.notes
+	t.methodOffsets += l.methodOffsets
 	t.maxWalk = max(t.maxWalk, l.maxWalk)
 	t.maxInvoc = max(t.maxInvoc, l.maxInvoc)
 	t.maxTry = max(t.maxTry, l.maxTry)
@@ -202,8 +208,13 @@ func (s *stats) report(part, name string, macros []string, script []byte, c cfg,
 	}
 	rec := replayRec{Part: part, Name: name, Macros: macros, Script: hex.EncodeToString(script), Cfg: c, Correct: correct,
 		Finding: res.F, State: res.State, Steps: res.Steps, Gas: res.Gas, OwnPico: res.OwnPico, Err: res.Err, Disasm: disasm(script)}
+	rec.Handler = tbl != nil
 	for _, l := range tbl {
-		rec.Loaded = append(rec.Loaded, loadRec{Script: hex.EncodeToString(l.script), Hash: l.hash.StringLE(), Disasm: disasm(l.script)})
+		lr := loadRec{Script: hex.EncodeToString(l.script), Hash: l.hash.StringLE(), Disasm: disasm(l.script)}
+		if l.nefScript != nil {
+			lr.NefScript, lr.NefHash, lr.MethodOff = hex.EncodeToString(l.nefScript), l.nefHash.StringLE(), l.methodOff
+		}
+		rec.Loaded = append(rec.Loaded, lr)
 	}
 	s.mu.Lock()
 	defer s.mu.Unlock()
@@ -254,6 +265,17 @@ func (s *stats) flush() map[string]int {
 // so long runs (> 3000 instructions) are repeated with Run() only, and a
 // script that faults on its very first instruction only under limit 0.
 func (s *stats) fullCheck(part, name string, macros []string, script []byte, base int64, budget int, w *walker, opts execOpts, light bool) (r0 result) {
+	return s.fullCheckT(part, name, macros, script, cfg{Base: base, MaxSteps: budget}, w, opts, light)
+}
+
+// fullCheckCfg: light variant with a configuration template (hardforks, reuse).
+func (s *stats) fullCheckCfg(part, name string, script []byte, tmpl cfg, w *walker, opts execOpts) result {
+	return s.fullCheckT(part, name, nil, script, tmpl, w, opts, true)
+}
+
+func (s *stats) fullCheckT(part, name string, macros []string, script []byte, tmpl cfg, w *walker, opts execOpts, light bool) (r0 result) {
+	base, budget := tmpl.Base, tmpl.MaxSteps
+	_, _ = base, budget
 	l := &w.loc
 	bounds, decoded := boundaries(script)
 	correct := scparser.IsScriptCorrect(script, nil) == nil
@@ -269,7 +291,8 @@ func (s *stats) fullCheck(part, name string, macros []string, script []byte, bas
 		}
 	}
 	opts.w = w
-	c0 := cfg{Gas: -1, Base: base, MaxSteps: budget}
+	c0 := tmpl
+	c0.Gas, c0.UseRun = -1, false
 	r0 = exec(script, c0, opts)
 	l.note(&r0)
 	s.report(part, name, macros, script, c0, correct, &r0, opts.tbl)
@@ -304,7 +327,8 @@ func (s *stats) fullCheck(part, name string, macros []string, script []byte, bas
 		var rs result
 		stepped := (r0.Steps <= 3000 && !light) || need < 0
 		if stepped {
-			c := cfg{Gas: lim, Base: base, MaxSteps: budget}
+			c := c0
+			c.Gas = lim
 			rs = exec(script, c, opts)
 			l.note(&rs)
 			if rs.State == "BUDGET" && rs.F == nil {
@@ -316,7 +340,8 @@ func (s *stats) fullCheck(part, name string, macros []string, script []byte, bas
 		if stepped && rs.State != "HALT" && rs.State != "FAULT" {
 			continue // never call Run() on something that did not stop when stepped
 		}
-		c := cfg{Gas: lim, Base: base, MaxSteps: budget, UseRun: true}
+		c := c0
+		c.Gas, c.UseRun = lim, true
 		rr := exec(script, c, opts)
 		l.execs++
 		l.notes += int64(rr.Notes)
@@ -341,6 +366,33 @@ func (s *stats) fullCheck(part, name string, macros []string, script []byte, bas
 	return r0
 }
 
+// methodsCheck: IsScriptCorrect with a method offset accepts the script only if
+// that offset is an instruction boundary by the harness's own decoding (entry
+// points are where execution starts, so this is the static half of "never
+// executes an offset that is not a boundary").
+func (s *stats) methodsCheck(w *walker, script []byte) {
+	if len(script) == 0 || scparser.IsScriptCorrect(script, nil) != nil {
+		return
+	}
+	bounds, ok := boundaries(script)
+	if !ok {
+		return
+	}
+	for k := range script {
+		m := bitfield.New(len(script))
+		m.Set(k)
+		accepted := scparser.IsScriptCorrect(script, m) == nil
+		w.loc.methodOffsets++
+		if accepted && !bounds[k] {
+			res := result{State: "STATIC", F: &finding{Kind: "static-check-accepts-method-offset-inside-an-instruction", Site: "IsScriptCorrect", IP: k,
+				Msg: fmt.Sprintf("method offset %d accepted, but it is not an instruction boundary", k)}}
+			s.report("raw", "", nil, script, cfg{}, true, &res, nil)
+		} else if !accepted && bounds[k] {
+			w.loc.notes++ // stricter than needed: not a property violation
+		}
+	}
+}
+
 // ---- raw part -------------------------------------------------------------------
 
 func rawPart(s *stats, from, to int) (scripts int64) {
@@ -349,6 +401,7 @@ func rawPart(s *stats, from, to int) (scripts int64) {
 	one := func(w *walker, script []byte) {
 		r0 := s.fullCheck("raw", "", nil, script, rawBase, budget, w, execOpts{mark: -1}, false)
 		n.Inc()
+		s.methodsCheck(w, script)
 		if len(script) <= 1 || r0.MaxWalk >= limItems || r0.MaxInvoc >= limInvoc {
 			s.r.Sample(map[string]any{"part": "raw", "script": hex.EncodeToString(script), "unlimited": r0.State, "steps": r0.Steps, "gas": r0.Gas, "max_walk": r0.MaxWalk, "max_invocations": r0.MaxInvoc})
 		}
@@ -367,6 +420,15 @@ func rawPart(s *stats, from, to int) (scripts int64) {
 				for j := 0; j < 256; j++ {
 					one(w, []byte{byte(i), byte(j)})
 				}
+			}
+			s.merge(w)
+		})
+	}
+	if to == 2 { // quick: the three-byte scripts that are one TRY instruction (every pair of catch/finally offsets)
+		s.r.Parallel(256, func(i int) {
+			w := newWalker()
+			for k := 0; k < 256; k++ {
+				one(w, []byte{0x3B, byte(i), byte(k)})
 			}
 			s.merge(w)
 		})
@@ -418,6 +480,10 @@ func TestCheck(t *testing.T) {
 	tX := time.Since(t0).Seconds()
 
 	t0 = time.Now()
+	nMatrix := opmatrixPart(s)
+	tMatrix := time.Since(t0).Seconds()
+
+	t0 = time.Now()
 	nRaw := rawPart(s, 0, 2)
 	tRaw := time.Since(t0).Seconds()
 
@@ -434,7 +500,7 @@ func TestCheck(t *testing.T) {
 		nRaw += rawPart(s, 3, 3)
 		tRaw += time.Since(t0).Seconds()
 	}
-	fmt.Printf("C12 %s: xscript %d callers x %d callees = %d programs %.1fs\n", r.Tier, xo.callers, xo.callees, xo.programs, tX)
+	fmt.Printf("C12 %s: xscript %d callers x %d callees (+specials) = %d programs %.1fs | opmatrix %d programs %.1fs\n", r.Tier, xo.callers, xo.callees, xo.programs, tX, nMatrix, tMatrix)
 	fmt.Printf("C12 %s: limits %d programs %.1fs | raw len<=%d %d scripts %.1fs | deep L=%d levels=%v states=%d programs=%d %.1fs | core L=%d levels=%v states=%d programs=%d %.1fs | execs=%d steps=%d\n",
 		r.Tier, nLimit, tLimits, rawLen, nRaw, tRaw, depth, d.levelSizes, d.states, d.programs, tDeep, coreDepth, dc.levelSizes, dc.states, dc.programs, tCore, s.tot.execs, s.tot.steps)
 
@@ -473,7 +539,7 @@ func TestCheck(t *testing.T) {
 		"outcomes":                       outcomes,
 		"raw_max_length":                 rawLen,
 		"raw_scripts":                    int(nRaw),
-		"raw_gas_limits":                 "unlimited, 0, 1, 3, need-1, need (datoshi; base price 1.2345 datoshi per unit), each stepped and with Run(); scripts faulting on their first instruction: unlimited and 0 only",
+		"raw_gas_limits":                 "unlimited, 0, 1, 3, need-1, need (datoshi; base price 1.0001 datoshi per unit), each stepped and with Run(); scripts faulting on their first instruction: unlimited and 0 only",
 		"xscript_callers":                xo.callers,
 		"xscript_callees":                xo.callees,
 		"xscript_programs":               xo.programs,
@@ -550,7 +616,15 @@ func replay(r *vk.Run, s *stats) {
 			fmt.Println("bad loadable script in replay")
 			continue
 		}
-		o.tbl = append(o.tbl, loaded{script: b, hash: h})
+		ld := loaded{script: b, hash: h, methodOff: l.MethodOff}
+		if l.NefScript != "" {
+			ld.nefScript, _ = hex.DecodeString(l.NefScript)
+			ld.nefHash, _ = util.Uint160DecodeStringLE(l.NefHash)
+		}
+		o.tbl = append(o.tbl, ld)
+	}
+	if c.Handler && o.tbl == nil {
+		o.tbl = []loaded{}
 	}
 	if o.tbl != nil {
 		o.boundsBy = loadedBounds(o.tbl)
